@@ -1,0 +1,26 @@
+//go:build verif
+
+package index
+
+// VerifConsts exports the format constants of this package, evaluated by the
+// compiler, for the verification translator.
+func VerifConsts() map[string]any {
+	hv2 := func(p Params) []byte { h, _ := V2.newHeader(p); return h }
+	return map[string]any{
+		"idx.magic":      append([]byte(nil), magic[:]...),
+		"idx.headerSize": int64(HeaderSize),
+		"idx.v1Marker":   int64(V1.marker),
+		"idx.v2Marker":   int64(V2.marker),
+		"idx.timesBit":   int64(timesBit),
+		"idx.keysBit":    int64(keysBit),
+		"idx.unusedBits": int64(unusedBits),
+		"idx.hdr00":      hv2(Params{}),
+		"idx.hdr10":      hv2(Params{Times: true}),
+		"idx.hdr01":      hv2(Params{Keys: true}),
+		"idx.hdr11":      hv2(Params{Times: true, Keys: true}),
+		"idx.size00":     Params{}.Size(),
+		"idx.size10":     Params{Times: true}.Size(),
+		"idx.size01":     Params{Keys: true}.Size(),
+		"idx.size11":     Params{Times: true, Keys: true}.Size(),
+	}
+}
